@@ -542,7 +542,7 @@ def smax(*args, **kw):
     # python's max keeps the first maximal element; as a value that is the max
     r = args[0]
     for a in args[1:]:
-        r = _ite_num(lift(a) > r, a, r)
+        r = _select(lift(a) > r, a, r)
     return r
 
 
@@ -555,8 +555,26 @@ def smin(*args, **kw):
         return _min(*args)
     r = args[0]
     for a in args[1:]:
-        r = _ite_num(lift(a) < r, a, r)
+        r = _select(lift(a) < r, a, r)
     return r
+
+
+def _select(c, a, b):
+    """If-term, collapsed to one operand when the path already decides the condition (keeps clamp chains
+    like max(0, min(255, x)) from nesting; no fork either way)."""
+    ce = z3.simplify(_b(c))
+    if z3.is_true(ce):
+        return a
+    if z3.is_false(ce):
+        return b
+    eng = CUR
+    if eng is not None and eng.collapse_ite and (not _isinstance(a, SNum) or not _isinstance(b, SNum)):
+        # only clamp-like selections (one operand is a constant) are worth a solver question
+        if eng.implied(ce):
+            return a
+        if eng.implied(z3.Not(ce)):
+            return b
+    return _ite_num(c, a, b)
 
 
 def _ite_num(c, a, b):
@@ -837,6 +855,7 @@ class Engine:
         self.stats = dict(paths=0, feas_queries=0, feas_time=0.0, feas_unknown=0, cut_bound=0,
                           aborted=0, forks=0)
         self.ufs = {}
+        self.collapse_ite = True
         self._shard_depth = None
         self._shard_prefixes = []
         self._reset(())
@@ -1015,16 +1034,30 @@ class Engine:
         return d
 
     def implied(self, cond):
-        """True iff cond is implied by the current path (no fork)."""
+        """True iff cond is implied by the current path (no fork).  The answer is recorded in the decision
+        trace so that re-executions with a prefix do not ask the solver again."""
         c = z3.simplify(cond)
         if z3.is_true(c):
             return True
         if z3.is_false(c):
             return False
+        pos = len(self.decisions)
+        if pos < len(self.prefix):
+            r = self.prefix[pos]
+            self.decisions.append(r)
+            self.pc.append(z3.BoolVal(True))
+            return r
+        if self._shard_depth is not None and pos >= self._shard_depth:
+            self._shard_prefixes.append(tuple(self.decisions))
+            raise PathAbort("shard")
         hint = self._model_says(c)
         if hint is False:
-            return False
-        return not self._check(z3.Not(c))[0]
+            r = False
+        else:
+            r = not self._check(z3.Not(c))[0]
+        self.decisions.append(r)
+        self.pc.append(z3.BoolVal(True))
+        return r
 
     # -- arithmetic helpers ----------------------------------------------------
     def divide(self, a, b):
@@ -1091,7 +1124,9 @@ class Engine:
             # round(x, nd) -> float within half a unit of the nd-th decimal
             r = self.fresh("roundnd", "real")
             half = Fraction(1, 2) / (Fraction(10) ** _int(nd))
-            self.add_side(z3.And(r - x.t <= rv(half), x.t - r <= rv(half)))
+            # kept out of the feasibility solver and of the first (light) discharge attempt: typically a
+            # non-linear definition of a display value
+            self.heavy.append(z3.And(r - x.t <= rv(half), x.t - r <= rv(half)))
             return SNum(r)
         if x.is_int:
             return x
